@@ -621,21 +621,26 @@ fn check_cli(ctx: &mut CaseCtx) {
     let efile = write("entities.json", &c.entities_json.to_string());
     let cfile = write("context.json", &c.context_json.to_string());
     let uid_arg = |u: &Uid| format!("{}::{}", u.ty, render::str_lit(&u.id, &mut TextOpts::plain(&mut Rng::new(0))));
-    let mut args: Vec<String> = vec![
-        "authorize".into(),
-        "--policies".into(),
-        pfile.clone(),
-        "--entities".into(),
-        efile,
-        "--context".into(),
-        cfile,
-        "--principal".into(),
-        uid_arg(&c.world.principal),
-        "--action".into(),
-        uid_arg(&c.world.action),
-        "--resource".into(),
-        uid_arg(&c.world.resource),
-    ];
+    // the request is given either on the command line or as one --request-json file
+    let use_request_json = ctx.rng.bool();
+    ctx.count(if use_request_json { "cli:request=json-file" } else { "cli:request=flags" });
+    let mut args: Vec<String> = vec!["authorize".into(), "--policies".into(), pfile.clone(), "--entities".into(), efile];
+    if use_request_json {
+        let rj = json!({"principal": uid_arg(&c.world.principal), "action": uid_arg(&c.world.action), "resource": uid_arg(&c.world.resource), "context": c.context_json});
+        let rfile = write("request.json", &rj.to_string());
+        args.extend(["--request-json".into(), rfile]);
+    } else {
+        args.extend([
+            "--context".into(),
+            cfile,
+            "--principal".into(),
+            uid_arg(&c.world.principal),
+            "--action".into(),
+            uid_arg(&c.world.action),
+            "--resource".into(),
+            uid_arg(&c.world.resource),
+        ]);
+    }
     let mut sfile = None;
     if let Some(s) = &c.schema_form {
         let (f, fmt) = match s {
